@@ -822,13 +822,15 @@ Definition graph_to_mol_gen (ignore use_h : bool) (g : gr) : option (list watom 
              flat_map (fun b : option (N * N * Z) => match b with Some x => [x] | None => [] end) bonds)
   else None.
 
-(** ** implicit_hydrogen(graph, preserve_atom_maps, reindex=False) (repaired code 7332273: works on a real copy), the
-    path graph_to_smi / graph_to_rsmi take when hydrogens are to stay explicit: every heavy atom takes its hydrogen
-    neighbours into hcount, the preserved hydrogens (by atom map) are given back, the others are removed *)
+(** ** implicit_hydrogen(graph, preserve_atom_maps, reindex=False) (repaired code 7332273: works on a real copy; 3ba7a77: a
+    hydrogen without a non-hydrogen neighbour is kept), the path graph_to_smi / graph_to_rsmi take when hydrogens are to stay
+    explicit: every heavy atom takes its hydrogen neighbours into hcount, the preserved hydrogens (by atom map) are given back,
+    the other hydrogens that were folded into a neighbour are removed *)
 Definition add_hc (d : Z) (a : natt) : natt :=
   NA (a_el a) (a_ar a) (Some (dflt (a_hc a) 0 + d)) (a_ch a) (a_am a) (a_tgh a).
 Definition memZ (x : Z) (l : list Z) : bool := existsb (Z.eqb x) l.
-Definition implicit_hydrogen (g : gr) (preserve : list Z) : gr :=
+(** everything up to the removal: (the copy, the graph with the counts adjusted, the preserved hydrogens) *)
+Definition imph_counts (g : gr) (preserve : list Z) : gr * gr * list N :=
   let g0 := copy g in
   let g1 := fold_left (fun acc n => if is_H g0 n then acc
                                     else set_node acc n (add_hc (Z.of_nat (List.length (filter (is_H g0) (nbrs g0 n))))))
@@ -837,10 +839,21 @@ Definition implicit_hydrogen (g : gr) (preserve : list Z) : gr :=
                      (node_ids g0) in
   let g2 := fold_left (fun acc h => fold_left (fun acc2 nb => if is_H g0 nb then acc2 else set_node acc2 nb (add_hc (-1)))
                                               (nbrs g0 h) acc) pres g1 in
+  (g0, g2, pres).
+Definition has_heavy_nbr (g0 : gr) (n : N) : bool := existsb (fun nb => negb (is_H g0 nb)) (nbrs g0 n).
+Definition implicit_hydrogen (g : gr) (preserve : list Z) : gr :=
+  let '(g0, g2, pres) := imph_counts g preserve in
+  fold_left remove_node (filter (fun n => is_H g0 n && negb (mem n pres) && has_heavy_nbr g0 n) (node_ids g0)) g2.
+(** as it was before repair 3ba7a77 (every non-preserved hydrogen removed); kept for the documented witness in
+    proof/C10_Select.v *)
+Definition implicit_hydrogen_old (g : gr) (preserve : list Z) : gr :=
+  let '(g0, g2, pres) := imph_counts g preserve in
   fold_left remove_node (filter (fun n => is_H g0 n && negb (mem n pres)) (node_ids g0)) g2.
 (** graph_to_smi(graph, preserve_atom_maps) up to the RWMol *)
 Definition graph_to_smi_mol (g : gr) (preserve : list Z) : option (list watom * list (N * N * Z)) :=
   match preserve with [] => graph_to_mol g | _ => graph_to_mol (implicit_hydrogen g preserve) end.
+Definition graph_to_smi_mol_old (g : gr) (preserve : list Z) : option (list watom * list (N * N * Z)) :=
+  match preserve with [] => graph_to_mol g | _ => graph_to_mol (implicit_hydrogen_old g preserve) end.
 
 (** vocabulary of C10_rsmi_graph_mol_ok: RDKit bond types, and the mapped atoms of a molecule as (node id, attributes) *)
 Definition okord (o : Z) : bool := (o =? 2) || (o =? 3) || (o =? 4) || (o =? 6).
